@@ -387,13 +387,23 @@ def gen_lexstat(rng):
             "history": rng.choice([1, 2]), "ignore": rng.choice(["all", "all", []])}
 
 
+SWAP_ROWS = [("German", "w a l d e m a r"), ("English", "w o l d e m o r t"), ("Russian", "v l a d i m i r")]
+
+
 def gen_alignments(rng):
     taxa, concepts, d = gen_lexdata(rng, 3, 3)
     data = {0: ["doculect", "concept", "ipa", "tokens", "cogid"]}
     for k, (t, c, w) in d.items():
         data[k] = [t, c, "".join(w), w, 1 + concepts.index(c) * 2 + rng.choice([0, 0, 1])]
+    swap = rng.random() < 0.5
+    if swap and rng.random() < 0.7:
+        # a cognate set with a metathesis (w a l d ~ v l a d): align(swap_check=True) annotates a swap
+        free = [i for i in range(60, 90) if i not in data]
+        for i, (t, w) in zip(rng.sample(free, 3), SWAP_ROWS):
+            data[i] = [t, "woldemort", w.replace(" ", ""), w.split(), 20]
     return {"type": "alignments", "mode": "valid", "data": data, "prettify": rng.choice([True, False]),
-            "analysis": "align", "history": rng.choice([1, 2]), "ignore": rng.choice(["all", []])}
+            "analysis": "align", "swap_check": swap, "history": rng.choice([1, 2, 2]),
+            "ignore": rng.choice(["all", [], []])}
 
 
 def from_json(c):
@@ -426,22 +436,25 @@ def _analyse(obj, case):
     if an is None:
         return None
     if an == "align":
-        obj.align(method="progressive")
-        out = []
-        for key, msa in sorted(obj.msa["cogid"].items()):
-            out.append([int(key), ["%s|%s|%s" % (i, t, " ".join(a))
-                                   for i, t, a in zip(msa["ID"], msa["taxa"], msa["alignment"])]])
-        return out
+        obj.align(method="progressive", swap_check=bool(case.get("swap_check")))
+        return _msa_state(obj)
     ref = {"sca": "scaid", "edit-dist": "editid", "turchin": "turchinid"}[an]
     obj.cluster(method=an, threshold=case.get("threshold", 0.45), ref=ref, override=True)
     return [[int(k), [str(obj[k, ref])]] for k in sorted(obj)]
 
 
 def _msa_state(obj):
+    """The alignments per cognate set as the object holds them: rows (id, taxon, aligned and plain segments) and the
+    per-set annotations (swaps, local, consensus) when present."""
     out = []
     for key, msa in sorted(obj.msa["cogid"].items()):
-        out.append([int(key), ["%s|%s|%s" % (i, t, " ".join(a))
-                               for i, t, a in zip(msa["ID"], msa["taxa"], msa["alignment"])]])
+        rows = ["%s|%s|%s|%s" % (i, t, " ".join(a), " ".join(q))
+                for i, t, a, q in zip(msa["ID"], msa["taxa"], msa["alignment"], msa["seqs"])]
+        for ann in ("swaps", "local", "consensus"):
+            if msa.get(ann):
+                rows.append("%s=%s" % (ann, " ".join(str(tuple(x)) if isinstance(x, (list, tuple)) else str(x)
+                                                     for x in msa[ann])))
+        out.append([int(key), rows])
     return out
 
 
